@@ -312,6 +312,8 @@ def main():
     total = a.examples if a.examples is not None else budget[tier]
     nshards = max(1, min(a.shards, total if total > 0 else a.shards))
     deadline_s = getattr(mod, "DEADLINE_S", {"quick": 240, "thorough": 3000})[tier]
+    if os.environ.get("PBT_DEADLINE_S"):      # development aid on a loaded machine; a cap hit is "inconclusive", never a violation
+        deadline_s = float(os.environ["PBT_DEADLINE_S"])
     per = (total + nshards - 1) // nshards if total > 0 else 0
     jobs = [(prop, tier, seed, k, nshards, per, deadline_s, {"noshrink": a.noshrink}) for k in range(nshards)]
     ctx = mp.get_context("spawn")
